@@ -218,7 +218,12 @@ func (c *Ctx) durationArgsAgreeResolved(rule string, fns []*ssa.Function) {
 					src = p.Name()
 				} else if ch, _ := fieldPath(r); len(ch) > 0 {
 					src = ch[len(ch)-1].Name()
+				} else if _, isConst := r.(*ssa.Const); isConst {
+					continue
 				} else {
+					// a timeout that is computed on the way (max with another setting, a sum, a default) no longer is the
+					// bound the operator gave
+					c.ob(rule, fmt.Sprintf("%s: <computed> -> %s(%s:)", fname(fn), callee.Name(), callee.Params[i].Name()), cs.pos(), false, true, "a timeout must be handed on as it was given: the wait it bounds would otherwise outlast (or undercut) the configured bound")
 					continue
 				}
 				want := callee.Params[i].Name()
